@@ -188,19 +188,23 @@ class MultivariateNormal(TMultivariateNormal, Distribution):
             dim = len(self.batch_shape) + dim + 1
 
         new_loc = self.loc.unsqueeze(dim)
+        scale_tril = self.__unbroadcasted_scale_tril
+        if scale_tril is not None:
+            # dim is a position in the batch shape of the distribution; the factor may lack leading batch dimensions
+            scale_tril = scale_tril.expand(*self.batch_shape, *scale_tril.shape[-2:])
         if self.islazy:
             new_covar = self._covar.unsqueeze(dim)
             new = self._new_like(mean=self.mean.unsqueeze(dim), covariance_matrix=new_covar)
-            if self.__unbroadcasted_scale_tril is not None:
+            if scale_tril is not None:
                 # Reuse the scale tril if available.
-                new.__unbroadcasted_scale_tril = self.__unbroadcasted_scale_tril.unsqueeze(dim)
+                new.__unbroadcasted_scale_tril = scale_tril.unsqueeze(dim)
         else:
             # Non-lazy MVN is represented using scale_tril in PyTorch.
             # Constructing it from scale_tril will avoid unnecessary computation.
             # Initialize using  __new__, so that we can skip __init__ and use scale_tril.
             new = self.__new__(type(self))
             new._islazy = False
-            new_scale_tril = self.__unbroadcasted_scale_tril.unsqueeze(dim)
+            new_scale_tril = scale_tril.unsqueeze(dim)
             super(MultivariateNormal, new).__init__(loc=new_loc, scale_tril=new_scale_tril)
             # Set the covar matrix, since it is always available for GPyTorch MVN.
             new.covariance_matrix = self.covariance_matrix.unsqueeze(dim)
